@@ -214,7 +214,7 @@ static void common_knobs(Plan& p, Gen& g, uint64_t rs, uint32_t chk) {
   if (g.r.chance(1, 3)) { static const int fl[] = {13, 14, 15, 24, 33, 40, 65, 70, 97, 130, 200, 225, 240, 255, 256, 300, 520}; g.go.family_len = fl[g.r.below(g.r.chance(1, 3) ? 17 : 11)]; }
   { static const int64_t wa[] = {1, 1, 2, 4, 8}; p.knobs["walk_all_every"] = getenv("SIM_WALK") ? atoi(getenv("SIM_WALK")) : wa[g.r.below(5)]; }
   if (g.r.chance(1, 120)) { g.big = true; p.knobs["big"] = 1; g.go.huge_strings = true; }
-  else if (g.r.chance(1, 2500)) { g.big = true; g.huge = true; p.knobs["big"] = 2; }
+  else if (g.r.chance(1, getenv("SIM_HUGE") ? 12 : 2500)) { g.big = true; g.huge = true; p.knobs["big"] = 2; }   // SIM_HUGE: development aid, makes the rare huge plans frequent
   p.knobs["envseed"] = (int64_t)(mix64(rs ^ 0x77) >> 1);
   p.knobs["chk"] = chk;
   p.knobs["str_mode"] = (int64_t)g.r.below(3);
